@@ -665,7 +665,7 @@ class Daemon(object):
         if not force:
             if hasattr(obj_or_class, "_pyroId") and obj_or_class._pyroId != "":  # check for empty string is needed for Cython
                 pyro_id = obj_or_class._pyroId
-                if pyro_id and self.objectsById.get(pyro_id) is obj_or_class:
+                if pyro_id and self._registered(pyro_id) is obj_or_class:
                     raise errors.DaemonError("object or class already has a Pyro id")
             if objectId in self.objectsById:
                 raise errors.DaemonError("an object or class is already registered with that id")
@@ -683,6 +683,13 @@ class Daemon(object):
         self.objectsById[obj_or_class._pyroId] = obj_or_class if not weak else weakref.ref(obj_or_class)
         if weak: weakref.finalize(obj_or_class,self.unregister,objectId)
         return self.uriFor(objectId)
+
+    def _registered(self, objectId):
+        """The object or class that is currently registered under the id (weak registrations dereferenced), or None."""
+        obj = self.objectsById.get(objectId)
+        if isinstance(obj, weakref.ref):
+            obj = obj()
+        return obj
 
     def unregister(self, objectOrId):
         """
